@@ -1244,9 +1244,9 @@ Proof.
   assert (Hm : (m < 1000000)%N) by lia.
   assert (HS : (S < 2085978496)%N) by lia.
   unfold TWO32, TWO64, NTP_UNIX in *.
-  pose proof (N.div_mod (m * 4294967296) 1000000 ltac:(lia)) as D3.
-  pose proof (N.mod_lt (m * 4294967296) 1000000 ltac:(lia)) as M3.
-  set (F := (m * 4294967296 / 1000000)%N) in *. set (r3 := ((m * 4294967296) mod 1000000)%N) in *.
+  pose proof (N.div_mod (m * 4294967296 + 999999) 1000000 ltac:(lia)) as D3.
+  pose proof (N.mod_lt (m * 4294967296 + 999999) 1000000 ltac:(lia)) as M3.
+  set (F := ((m * 4294967296 + 999999) / 1000000)%N) in *. set (r3 := ((m * 4294967296 + 999999) mod 1000000)%N) in *.
   assert (HF : (F < 4294967296)%N) by lia.
   rewrite (N.mod_small F 4294967296) by exact HF.
   rewrite (N.mod_small ((S + 2208988800) * 4294967296) 18446744073709551616) by lia.
